@@ -319,8 +319,21 @@ func runRoundTrip() int {
 					return
 				}
 				obs.SignOK = true
-				desc, oc, err := notation.VerifyBlob(ctx, bver, blobReader(blob, mix(*flagSeed, c.ID, "rd")/5), sig, notation.VerifyBlobOptions{ContentMediaType: cmt,
-					BlobVerifierVerifyOptions: notation.BlobVerifierVerifyOptions{SignatureMediaType: mediaTypeOf(in.Format), TrustPolicyName: "bp", UserMetadata: copyMap(meta)}})
+				// the verifying caller restates what was signed - or less: no content media type, only some of the metadata (or none).  What
+				// comes back is the descriptor that was SIGNED, whatever the caller chose to pin
+				askCMT, askMeta := cmt, copyMap(meta)
+				switch mix(*flagSeed, c.ID, "ask") % 3 {
+				case 1:
+					askCMT = ""
+					for k := range askMeta {
+						delete(askMeta, k) // (one pair less)
+						break
+					}
+				case 2:
+					askCMT, askMeta = "", nil
+				}
+				desc, oc, err := notation.VerifyBlob(ctx, bver, blobReader(blob, mix(*flagSeed, c.ID, "rd")/5), sig, notation.VerifyBlobOptions{ContentMediaType: askCMT,
+					BlobVerifierVerifyOptions: notation.BlobVerifierVerifyOptions{SignatureMediaType: mediaTypeOf(in.Format), TrustPolicyName: "bp", UserMetadata: askMeta}})
 				if err != nil || oc == nil {
 					obs.Note = fmt.Sprintf("verify: %v", err)
 					if ec, verr := coreVerify(in.Format, sig); verr == nil {
@@ -330,7 +343,7 @@ func runRoundTrip() int {
 					obs.VerifyOK = true
 					outcome = oc
 					// successful blob verification returns the descriptor of the blob that was verified
-					obs.RetDescOK = desc.Digest == wantTarget.Digest && desc.Size == wantTarget.Size && desc.MediaType == cmt
+					obs.RetDescOK = desc.Digest == wantTarget.Digest && desc.Size == wantTarget.Size && desc.MediaType == cmt && mapsEqual(desc.Annotations, wantTarget.Annotations)
 					// ANOTHER blob (one more byte) with this signature, asking for exactly the metadata the signature carries
 					_, _, werr := notation.VerifyBlob(ctx, bver, bytes.NewReader(append(append([]byte{}, blob...), '!')), sig, notation.VerifyBlobOptions{ContentMediaType: cmt,
 						BlobVerifierVerifyOptions: notation.BlobVerifierVerifyOptions{SignatureMediaType: mediaTypeOf(in.Format), TrustPolicyName: "bp", UserMetadata: copyMap(meta)}})
@@ -358,6 +371,34 @@ func runRoundTrip() int {
 								BlobVerifierVerifyOptions: notation.BlobVerifierVerifyOptions{SignatureMediaType: mediaTypeOf(in.Format), TrustPolicyName: "bp"}}); oerr == nil {
 								obs.WrongBlob = "accepted"
 							}
+						}
+					}
+					// the blob is a FILE that is verified once; then other bytes of the same length are written into the very same file and its
+					// time stamp is put back (cp -p, rsync -t, a reproducible build): this signature is not for what the file holds now
+					if len(blob) > 0 && len(blob) <= 70000 {
+						if fdir, err := os.MkdirTemp(*flagScratch, "rtfile"); err == nil {
+							fp := filepath.Join(fdir, "blob.bin")
+							must(os.WriteFile(fp, blob, 0644))
+							vopts := notation.VerifyBlobOptions{ContentMediaType: cmt,
+								BlobVerifierVerifyOptions: notation.BlobVerifierVerifyOptions{SignatureMediaType: mediaTypeOf(in.Format), TrustPolicyName: "bp", UserMetadata: copyMap(meta)}}
+							if f, err := os.Open(fp); err == nil {
+								_, _, _ = notation.VerifyBlob(ctx, bver, f, sig, vopts)
+								f.Close()
+							}
+							fi, _ := os.Stat(fp)
+							other := append([]byte{}, blob...)
+							other[len(other)-1] ^= 0x55
+							must(os.WriteFile(fp, other, 0644))
+							if fi != nil {
+								_ = os.Chtimes(fp, fi.ModTime(), fi.ModTime())
+							}
+							if f, err := os.Open(fp); err == nil {
+								if _, _, ferr := notation.VerifyBlob(ctx, bver, f, sig, vopts); ferr == nil {
+									obs.WrongBlob = "accepted"
+								}
+								f.Close()
+							}
+							os.RemoveAll(fdir)
 						}
 					}
 					// the SAME blob with this signature, but the caller states a content media type that is another string (letter case, a
